@@ -420,8 +420,12 @@ func run(c *core.Ctx) error {
 	c.Logf("stress: %d scenarios in %.1fs", len(a.results), time.Since(t0).Seconds())
 
 	// hang candidates: the deadlock rule asks for reproduction with the same seed
+	seenHang := map[string]bool{}
 	for _, hr := range a.hangs {
-		confirmHang(c, self, hr, "")
+		if !seenHang[hr.Hang.Signature] { // one confirmation per distinct set of blocked positions
+			seenHang[hr.Hang.Signature] = true
+			confirmHang(c, self, hr, "")
+		}
 	}
 	hzWG.Wait()
 	c.Logf("hazards done at %.1fs", time.Since(t0).Seconds())
@@ -465,10 +469,12 @@ func run(c *core.Ctx) error {
 			toJudge = append(toJudge, r)
 		}
 	}
-	if len(toJudge) == 0 {
+	if len(toJudge) == 0 && len(a.hangs) == 0 {
 		return fmt.Errorf("no scenario produced a trace: %v", a.machine)
 	}
-	if err := judgeSelfTest(c, toJudge[0]); err != nil {
+	if len(toJudge) == 0 {
+		c.Logf("every scenario that ran ended in a hang verdict; nothing else to validate")
+	} else if err := judgeSelfTest(c, toJudge[0]); err != nil {
 		// try another one before giving up (a scenario may have no post-Close lock call)
 		ok := false
 		for _, r := range toJudge[1:min(len(toJudge), 6)] {
@@ -567,8 +573,14 @@ func confirmHang(c *core.Ctx, bin string, hr *Result, fixedSig string) {
 		return
 	}
 	reproduced := false
+	rsc := hr.Scenario
+	if rsc.WatchdogS > 30 {
+		// the run normally takes a second or two; whether the state it is stuck in is a deadlock
+		// is decided by the two-sample rule, not by the length of the wait
+		rsc.WatchdogS = 30
+	}
 	for try := 0; try < 3 && !reproduced; try++ {
-		co := runChild(c, bin, []Scenario{hr.Scenario}, 15*time.Minute)
+		co := runChild(c, bin, []Scenario{rsc}, 15*time.Minute)
 		if len(co.results) == 1 && co.results[0].Hang != nil {
 			h2 := co.results[0].Hang
 			if h2.AllBlocked && h2.Stable && h2.Signature == h.Signature {
